@@ -29,6 +29,7 @@ func init() {
 		ID:    "C10",
 		Level: "exploration",
 		Rule: "trial = queued/sync channel, W writers using all entry points incl. ReadFrom (pooled chunk handed over without copy); every writer overwrites its buffer with 0xBB right after each call returns; " +
+			"plus goroutines writing through LengthFieldCodec from one scratch buffer each (overwritten after Write returns) while the first low-level write is held until every writer has passed the codec; " +
 			"scribbler goroutines continuously Get pooled buffers of every size class, fill them to capacity with 0xBB and Put them back; the sender is delayed/gated between draining, Writev and recycling so payloads sit in queue/batch meanwhile; " +
 			"oracle: every record on the wire is byte-identical (CRC + full compare) to the payload at call time; plus ReadFrom over short-piece readers with zero-length reads, a few Close-while-the-sender-is-inside-Writev trials, and HTTP response writers (pooled bufio buffers) that are open at the same time after earlier responses whose Close failed or was repeated; distinct_nontrivial = distinct event-order signatures among trials where pooled buffers were observed being recycled to a scribbler",
 		Assumptions: []string{"sync.Pool reuse is probabilistic: evidence counts how many scribbler Gets returned a buffer previously used by the channel (pool_reuse_seen)"},
